@@ -72,6 +72,8 @@ def knownRacy : List String :=
     "ShareWithConfig.sourceSubscription",      -- operator_connectable.go:160 read after Unlock, :89/:103 written under mu
     "BufferWithCount.buffer",                  -- operator_transformations.go:591 teardown write, :571-:579 source callback
     "GroupByIWithContext.groups",              -- operator_transformations.go:385 teardown overwrites the sync.Map the callbacks use
+    "detachOn.ch",                             -- operator_utility.go:585 teardown closes the channel the source callback sends on (:597)
+    "ToChannel.ch",                            -- operator_sink.go:130 same shape (:150)
     "MergeMapIWithContext.i",                  -- operator_combining.go:215 index shared by all subscriptions (also C12)
     "OnErrorResumeNextWith.finally" ]          -- operator_error_handling.go:61 captured slice rewritten per application (also C12)
 
